@@ -1,9 +1,11 @@
 package props
 
 import (
+	"bytes"
 	"fmt"
 	"regexp"
 	"sort"
+	"strconv"
 	"strings"
 
 	"github.com/glycerine/zygomys/v9/zygo"
@@ -73,6 +75,61 @@ var c04alphabet = []string{
 	`(begin (def v3 [1 2 3]) (set (arrayidx v3 [1]) 5) v3)`,
 	`{v4 := [1 2 3]; v4[0] = 9; v4}`,
 	`(for outer: [(def i 0) (< i 2) (set i (+ i 1))] (for [(def j 0) (< j 2) (set j (+ j 1))] (cond (== j 1) (continue outer:) nil)))`,
+	// evaluations made by the host through the Go API rather than from source text
+	`@apply f 4`,   // env.Apply of the compiled function bound to f
+	`@apply str 4`, // env.Apply of a builtin
+	`@apply lp 3 0`,
+	`@loadrun (+ a 1)`, // env.LoadString + env.Run
+	`@evalexprs (f 1)`, // env.EvalExpressions of a parsed form
+}
+
+// c04host performs an evaluation through the Go API.
+func c04host(tr *zy.Traced, op string) (res zy.Res) {
+	defer func() {
+		if r := recover(); r != nil {
+			res = zy.Res{Panic: fmt.Sprint(r)}
+		}
+	}()
+	env := tr.Env
+	fields := strings.SplitN(op, " ", 2)
+	done := func(v zygo.Sexp, err error) zy.Res {
+		if err != nil {
+			return zy.Res{Err: err.Error()}
+		}
+		if v == nil {
+			return zy.Res{NilVal: true}
+		}
+		return zy.Res{Val: zy.Canon(v), Sexp: v}
+	}
+	switch fields[0] {
+	case "@apply":
+		parts := strings.Fields(fields[1])
+		obj, found := env.FindObject(parts[0])
+		fn, isFn := obj.(*zygo.SexpFunction)
+		if !found || !isFn {
+			return zy.Res{Err: parts[0] + " is not a function here"}
+		}
+		var args []zygo.Sexp
+		for _, a := range parts[1:] {
+			n, _ := strconv.Atoi(a)
+			args = append(args, &zygo.SexpInt{Val: int64(n)})
+		}
+		return done(env.Apply(fn, args))
+	case "@loadrun":
+		if err := env.LoadString(fields[1] + "\n"); err != nil {
+			return zy.Res{Err: err.Error()}
+		}
+		return done(env.Run())
+	case "@evalexprs":
+		ps := env.VerifParser()
+		ps.ResetAddNewInput(bytes.NewBufferString(fields[1] + "\n"))
+		xs, err := ps.ParseTokens()
+		if err != nil {
+			return zy.Res{Err: err.Error()}
+		}
+		return done(env.EvalExpressions(xs))
+	}
+	return zy.Res{Err: "unknown host operation"}
 }
 
 type c04state struct {
@@ -143,8 +200,14 @@ func c04history(c *engine.Ctx, hist []int, record bool) string {
 	allOK := true
 	var last zy.Res
 	lastName := "start"
+	hostOps := false
 	for i, t := range texts {
-		last = tr.Run(t)
+		if strings.HasPrefix(t, "@") {
+			hostOps = true
+			last = c04host(tr, t)
+		} else {
+			last = tr.Run(t)
+		}
 		d := tr.Env.VerifDepths()
 		if i == len(texts)-1 && record {
 			lastName = fmt.Sprintf("%d", hist[i])
@@ -155,6 +218,10 @@ func c04history(c *engine.Ctx, hist []int, record bool) string {
 				c.Violation("not-at-rest", "C04/not-at-rest/"+lastName, w, fmt.Sprintf("after the successful evaluation of %q (history %q): %s", t, texts[:i], depthsStr(d)))
 			}
 			if last.OK() {
+				// the interpreter serves the next evaluation: a fixed sum gives its value
+				if pr := tr.Run("(+ 40 2)"); pr.Short() != "42" {
+					c.Violation("next-evaluation", "C04/next-evaluation/"+lastName, w, fmt.Sprintf("after the successful %q, evaluating (+ 40 2) gives %s", t, pr))
+				}
 				e := tr.Run("")
 				if e.Short() != "nil" {
 					c.Violation("empty-input", "C04/empty-input/"+lastName, w, fmt.Sprintf("after %q, evaluating empty input gives %s instead of nil", t, e))
@@ -173,7 +240,7 @@ func c04history(c *engine.Ctx, hist []int, record bool) string {
 	}
 	d := tr.Env.VerifDepths()
 	key := depthsStr(d) + "|" + c04globals(tr.Env, initial)
-	if record && allOK && len(texts) >= 2 {
+	if record && allOK && len(texts) >= 2 && !hostOps {
 		// together vs one at a time
 		tw := zy.NewTraced(true)
 		twInitial := c04names(tw.Env)
@@ -233,7 +300,7 @@ func init() {
 	engine.Register(&engine.Check{
 		ID:    "C04",
 		Level: "model_checking",
-		Rule: "explicit-state BFS over histories of evaluations on one long-lived interpreter (StandardSetup): alphabet of 46 forms, one per family of the full surface language (core forms, struct/var/func/method/interface, defmac and macro calls, macexpand, range, infix blocks, package, tail recursion, lazy forcing, eval, failing forms, unparsable text, empty input); " +
+		Rule: "explicit-state BFS over histories of evaluations on one long-lived interpreter (StandardSetup): alphabet of 51 operations, one per family of the full surface language (core forms, struct/var/func/method/interface, defmac and macro calls, macexpand, range, infix blocks, package, tail recursion, lazy forcing, eval, failing forms, unparsable text, empty input, and evaluations made through the Go API: Apply of a compiled function and of a builtin, LoadString+Run, EvalExpressions); " +
 			"state key = four stack depths + sorted printed user globals; in every state: stacks at rest after a success, empty input gives nil, all forms in one call == one at a time; depth 3 (thorough 4). " +
 			"Plus the C02/C03/C09/C16 program grammars evaluated in batches of 40 on one interpreter with the stacks checked after each success; distinct_nontrivial = distinct (value, state) outcomes",
 		Assumptions: []string{"depths are read through the verif accessor VerifDepths", "after a failed evaluation the interpreter is cleared as the REPL does (what a failure leaves behind is C05)"},
